@@ -1,6 +1,7 @@
 package checks
 
 import (
+	"os/exec"
 	"path/filepath"
 	"os"
 	"bytes"
@@ -494,12 +495,14 @@ func runC17(ctx *ev.Ctx) {
 	}
 	ctx.Set("lookups_compared", total)
 	ctx.AddEvals(total, total)
-	ctx.Rule = "loading histories: a dictionary loaded again after another one redefined its AVPs and a file edited and reloaded from the same path (through Load and through LoadFile with temporary files); one application id declared under two types by successive loads; dictionary files with several application elements (bare re-declarations of loaded applications before / between / after populated ones); the embedded dictionaries (extracted from diam/dict/default.go) in default order, every rotation and every adjacent swap; a generated family of four 3-AVP dictionaries that redefine each other's codes and names across application 0 / 4 / 16777251 and vendor variants, in all 24 orders, alone and on top of the base dictionary. After every Load - and after Loads that are rejected (a re-declared command, an undeclarable data type, truncated XML) following the first and the last dictionary of each history: FindAVPWithVendor by uint32 code, by int code and by name, FindAVP by int, FindCommand and App(id[,type]) for every application (loaded, children of the parent map, 0, an unrelated id) x every code / name present anywhere plus +-1 neighbours x vendor {declared, 0, another, wildcard}, plus every code looked up under two different vendor ids directly after one another, (the key space is that of ALL dictionaries of the history, so keys are also looked up while still undefined) are compared with the reference model, and everything resolvable before the Load must still be. Distinct by (history, query)."
+	ctx.Rule = "three child processes whose first use of dict.Default is Load / LoadFile of a dictionary that re-declares embedded AVPs / one lookup and then the Load (control): the definitions loaded last win in all three, which resolve identically; loading histories: a dictionary loaded again after another one redefined its AVPs and a file edited and reloaded from the same path (through Load and through LoadFile with temporary files); one application id declared under two types by successive loads; dictionary files with several application elements (bare re-declarations of loaded applications before / between / after populated ones); the embedded dictionaries (extracted from diam/dict/default.go) in default order, every rotation and every adjacent swap; a generated family of four 3-AVP dictionaries that redefine each other's codes and names across application 0 / 4 / 16777251 and vendor variants, in all 24 orders, alone and on top of the base dictionary. After every Load - and after Loads that are rejected (a re-declared command, an undeclarable data type, truncated XML) following the first and the last dictionary of each history: FindAVPWithVendor by uint32 code, by int code and by name, FindAVP by int, FindCommand and App(id[,type]) for every application (loaded, children of the parent map, 0, an unrelated id) x every code / name present anywhere plus +-1 neighbours x vendor {declared, 0, another, wildcard}, plus every code looked up under two different vendor ids directly after one another, (the key space is that of ALL dictionaries of the history, so keys are also looked up while still undefined) are compared with the reference model, and everything resolvable before the Load must still be. Distinct by (history, query)."
 	ctx.Assume = []string{"reference model refdict: application -> documented parents (16777251->4, 16777238->4, 4->1) -> base; exact vendor or wildcard; last load wins"}
 }
 
 // c17Parent: type table and exported constants (run once).
 func c17Parent(ctx *ev.Ctx) {
+	// 0. dict.Default extended before its first use, in processes of their own
+	c17FreshDefault(ctx)
 	// 1. every type name a dictionary may declare is decodable and encodable
 	var names []string
 	for n := range datatype.Available {
@@ -726,4 +729,125 @@ func replayC17(ctx *ev.Ctx, raw json.RawMessage) string {
 	}
 	ev.Infra("unknown history %q", cs.History)
 	return ""
+}
+
+// ---- dict.Default extended before its first use ------------------------------------------------
+
+// c17FreshXML re-declares two AVPs of the embedded base dictionary (another data type for Class,
+// another name and type for code 295) and adds a new one, in application 0.
+const c17FreshXML = `<?xml version="1.0" encoding="UTF-8"?>
+<diameter><application id="0" name="Base">
+<avp name="Class" code="25" must="M" may="P" must-not="V" may-encrypt="Y"><data type="UTF8String"/></avp>
+<avp name="Termination-Reason" code="295" must="M" may="P" must-not="V" may-encrypt="N"><data type="Unsigned32"/></avp>
+<avp name="Fresh-Extension" code="9555" must="M"><data type="Unsigned64"/></avp>
+</application></diameter>`
+
+// FreshDefaultChild runs in a process of its own. Variant 0: the FIRST thing the process does with
+// dict.Default is Load of c17FreshXML (what a program that extends the default dictionary at
+// start-up does); 1: the same through LoadFile; 2 (control): one lookup first, then the Load.
+// It then prints what a fixed list of lookups resolves to. The three variants must print the same,
+// and the re-declared AVPs must resolve to the definitions loaded last.
+func FreshDefaultChild(variant int) {
+	var err error
+	switch variant {
+	case 0:
+		err = dict.Default.Load(strings.NewReader(c17FreshXML))
+	case 1:
+		f, e := os.CreateTemp("", "c17-fresh-*.xml")
+		if e != nil {
+			fmt.Println("INFRA", e)
+			return
+		}
+		f.WriteString(c17FreshXML)
+		f.Close()
+		defer os.Remove(f.Name())
+		err = dict.Default.LoadFile(f.Name())
+	case 2:
+		_, _ = dict.Default.FindAVP(0, "Origin-Host")
+		err = dict.Default.Load(strings.NewReader(c17FreshXML))
+	}
+	defer func() {
+		if r := recover(); r != nil {
+			fmt.Printf("PANIC %v\n", r)
+		}
+	}()
+	fmt.Printf("load: %v\n", err)
+	for _, app := range []uint32{0, 1, 4, 16777251, 999} {
+		for _, k := range []interface{}{uint32(25), 25, "Class", uint32(295), "Termination-Reason", "Termination-Cause", uint32(9555), "Fresh-Extension", uint32(264), "Origin-Host", uint32(461)} {
+			a, e := dict.Default.FindAVP(app, k)
+			if e != nil {
+				fmt.Printf("FindAVP(%d, %T %v): unresolved\n", app, k, k)
+				continue
+			}
+			fmt.Printf("FindAVP(%d, %T %v): %s code %d type %s\n", app, k, k, a.Name, a.Code, a.Data.TypeName)
+		}
+		for _, v := range []uint32{0, dict.UndefinedVendorID} {
+			if a, e := dict.Default.FindAVPWithVendor(app, uint32(25), v); e == nil {
+				fmt.Printf("FindAVPWithVendor(%d, 25, %d): %s type %s\n", app, v, a.Name, a.Data.TypeName)
+			} else {
+				fmt.Printf("FindAVPWithVendor(%d, 25, %d): unresolved\n", app, v)
+			}
+		}
+	}
+	for _, c := range [][2]uint32{{0, 257}, {4, 272}, {0, 280}, {16777251, 316}} {
+		if cmd, e := dict.Default.FindCommand(c[0], c[1]); e == nil {
+			fmt.Printf("FindCommand(%d, %d): %s\n", c[0], c[1], cmd.Short)
+		} else {
+			fmt.Printf("FindCommand(%d, %d): unresolved\n", c[0], c[1])
+		}
+	}
+	if a, e := dict.Default.App(4); e == nil {
+		fmt.Printf("App(4): %s\n", a.Name)
+	} else {
+		fmt.Println("App(4): unresolved")
+	}
+}
+
+// c17FreshDefault runs the three children and compares.
+func c17FreshDefault(ctx *ev.Ctx) {
+	var outs [3]string
+	for v := 0; v < 3; v++ {
+		cmd := exec.Command(os.Args[0], "C17", "--freshdefault", strconv.Itoa(v))
+		b, err := cmd.CombinedOutput()
+		outs[v] = string(b)
+		ctx.Eval(ev.HS(fmt.Sprintf("fresh-default-%d", v)))
+		if err != nil || strings.Contains(outs[v], "INFRA") {
+			ev.Infra("C17 fresh-default child %d: %v: %s", v, err, tailStr(outs[v], 300))
+		}
+	}
+	names := []string{"dict.Default.Load as the first use of the default dictionary", "dict.Default.LoadFile as the first use of the default dictionary", "one lookup, then dict.Default.Load (control)"}
+	for v := 0; v < 3; v++ {
+		what := ""
+		switch {
+		case strings.Contains(outs[v], "PANIC"):
+			what = "a lookup panicked: " + tailStr(outs[v], 200)
+		case !strings.Contains(outs[v], "load: <nil>"):
+			what = "the Load was rejected: " + tailStr(outs[v], 200)
+		default:
+			for _, want := range []string{"FindAVP(0, uint32 25): Class code 25 type UTF8String", "FindAVP(4, string Class): Class code 25 type UTF8String", "FindAVP(16777251, int 25): Class code 25 type UTF8String",
+				"FindAVP(0, uint32 295): Termination-Reason code 295 type Unsigned32", "FindAVP(1, string Termination-Reason): Termination-Reason code 295 type Unsigned32",
+				"FindAVP(999, uint32 9555): Fresh-Extension code 9555 type Unsigned64", "FindAVP(0, string Origin-Host): Origin-Host code 264 type DiameterIdentity",
+				"FindAVPWithVendor(4, 25, 0): Class type UTF8String", "FindCommand(0, 257): CE", "FindCommand(4, 272): CC", "App(4): "} {
+				if !strings.Contains(outs[v], want) {
+					what = fmt.Sprintf("expected %q (the definition loaded last wins; embedded definitions stay resolvable); the process printed for that lookup: %s", want, c17Line(outs[v], want[:strings.Index(want, ":")+1]))
+					break
+				}
+			}
+			if what == "" && outs[v] != outs[2] {
+				what = "the lookups resolve differently from the control process (lookup first, then Load)"
+			}
+		}
+		if what != "" {
+			ctx.Report("", "dict.Default extended before its first use", names[v]+": "+what, map[string]interface{}{"fresh": v})
+		}
+	}
+}
+
+func c17Line(out, prefix string) string {
+	for _, l := range strings.Split(out, "\n") {
+		if strings.HasPrefix(l, prefix) {
+			return l
+		}
+	}
+	return "(nothing)"
 }
